@@ -200,8 +200,8 @@ theorem pageCount_wrap (l : List Cont) : pageCount (l.map Cont.wrap) = pageCount
   induction l with
   | nil => rfl
   | cons c rest ih =>
-    simp only [pageCount, List.map_cons, List.filter_cons, Cont.wrap_live] at ih ⊢
-    split <;> simp [ih]
+    simp only [pageCount] at ih
+    cases hl : c.live <;> simp [pageCount, List.filter_cons, hl, ih]
 
 theorem lastFin_wrap (l : List Cont) : lastFin (l.map Cont.wrap) = lastFin l := by
   simp only [lastFin, List.getLast?_map]
@@ -253,11 +253,12 @@ theorem addContiguousAux_wrap {S : List UInt8} {b : Int} (hb : 1 ≤ b) (hn : S.
   | [], last, ret, _, _ => by simp [addContiguousAux]
   | p :: rest, last, ret, hl, hok => by
     have hp := (hok p (List.mem_cons_self ..)).inW
-    simp only [List.map_cons, addContiguousAux, Page.wrap_seq, Page.wrap_bytes]
-    rw [real_diff hb hn hl hp.1]
-    simp only [I_diff]
-    by_cases hc : p.seq - last = 0
-    · rw [if_pos hc, if_pos hc, real_add]
+    simp only [List.map_cons, addContiguousAux]
+    have e1 : R.diff (wq last) (Page.wrap p).seq = I.diff last p.seq := real_diff hb hn hl hp.1
+    rw [e1]
+    by_cases hc : I.diff last p.seq = 0
+    · rw [if_pos hc, if_pos hc, Page.wrap_bytes, real_add]
+      simp only [I_diff] at hc
       have hl' : InW b S.length (last + ↑p.bytes.length) := by
         have : last = p.seq := by omega
         rw [this]; exact hp.2
@@ -292,8 +293,9 @@ theorem findKeep_wrap (toKeep : Int) : ∀ (all : List Cont) (cur skip : Int) (i
     findKeep toKeep (all.map Cont.wrap) cur skip idx = findKeep toKeep all cur skip idx
   | [], _, _, _ => rfl
   | c :: rest, cur, skip, idx => by
-    simp only [List.map_cons, findKeep, Cont.wrap_bytes]
+    simp only [List.map_cons, findKeep]
     rw [findKeep_wrap toKeep rest]
+    rfl
 
 def wrapPs (r : List Page × Nat) : List Page × Nat := (r.1.map Page.wrap, r.2)
 
@@ -396,5 +398,390 @@ theorem sendToConnection_wrap {S : List UInt8} {b : Int} (hb : 1 ≤ b) (hn : S.
       simp [Res.mapR, Sent.wrap]
   | err k => rfl
   | panic k => rfl
+
+/-! ### handleBytes / finishAssemble / assemble -/
+
+def wrapHB (r : Half × Int × List Cont) : Half × Int × List Cont := (r.1.wrap, r.2.1, r.2.2.map Cont.wrap)
+def Out.wrap (o : Out) : Out := { o with half := o.half.wrap }
+
+@[simp] theorem Half.wrap_pages (h : Half) : h.wrap.pages = h.pages := rfl
+@[simp] theorem Half.wrap_closed (h : Half) : h.wrap.closed = h.closed := rfl
+@[simp] theorem Half.wrap_lastSeen (h : Half) : h.wrap.lastSeen = h.lastSeen := rfl
+@[simp] theorem Half.wrap_queue (h : Half) : h.wrap.queue = h.queue.map Page.wrap := rfl
+@[simp] theorem Half.wrap_saved (h : Half) : h.wrap.saved = h.saved.map Page.wrap := rfl
+@[simp] theorem Half.wrap_nextSeq (h : Half) : h.wrap.nextSeq = wns h.nextSeq := rfl
+
+theorem addNextFromConn_wrap (h : Half) (ret : List Cont) :
+    addNextFromConn h.wrap (ret.map Cont.wrap) =
+      ((addNextFromConn h ret).1.wrap, (addNextFromConn h ret).2.map Cont.wrap) := by
+  unfold addNextFromConn
+  cases hq : h.queue with
+  | nil => simp [hq]
+  | cons p rest => simp [hq, Half.wrap]
+
+theorem WInv.inW {S : List UInt8} {b : Int} {h : Half} (hw : WInv S b h) :
+    h.nextSeq = -1 ∨ InW b S.length h.nextSeq := by
+  rcases hw.ns with h1 | h1
+  · exact Or.inl h1
+  · right; unfold InW; omega
+
+theorem handleBytes_wrap {S : List UInt8} {b : Int} (hb : 1 ≤ b) (hn : S.length + 2 < 1073741824)
+    (cfg : Cfg) (h : Half) (used : Int) (queue : Bool) (seq : Int) (bytes : List UInt8) (ts : Int) (syn fin : Bool)
+    (hw : WInv S b h) (hat : At S b seq bytes)
+    (hnq : queue = false → (h.nextSeq ≠ -1 ∧ seq ≤ h.nextSeq)) :
+    handleBytes R cfg h.wrap used queue (wq seq) bytes ts syn fin =
+      Res.mapR wrapHB (handleBytes I cfg h used queue seq bytes ts syn fin) := by
+  unfold handleBytes
+  have hokq : ∀ p ∈ h.queue, At S b p.seq p.bytes := fun p hp => (hw.ok p hp).1
+  cases queue with
+  | true =>
+    simp only [if_true]
+    rw [checkOverlap_wrap hb hn h used true seq bytes ts fin hat hokq]
+    cases checkOverlap I h used true seq bytes ts fin with
+    | ok r =>
+      obtain ⟨h1, used1, bs⟩ := r
+      simp only [Res.mapR, wrap3, Half.wrap_pages]
+      by_cases hl : limitHit cfg h1.pages used1 = true
+      · have := addNextFromConn_wrap h1 []
+        simp only [List.map_nil] at this
+        simp [hl, this, Res.mapR, wrapHB]
+      · simp [hl, Res.mapR, wrapHB]
+    | err k => rfl
+    | panic k => rfl
+  | false =>
+    simp only [Bool.false_eq_true, if_false]
+    obtain ⟨hns, hle⟩ := hnq rfl
+    have hbnd := hw.ns.resolve_left hns
+    rw [overlapExisting_wrap hb hn h seq bytes hat.inW.1 hw.inW]
+    obtain ⟨⟨bs0, seq0⟩, hoe, hseq0, hat0, _⟩ := overlapExisting_spec S b h seq bytes hns hle hat hbnd
+    rw [hoe]
+    simp only [Res.mapR]
+    simp only at hseq0 hat0
+    subst hseq0
+    rw [checkOverlap_wrap hb hn h used false h.nextSeq bs0 ts fin hat0 hokq]
+    cases checkOverlap I h used false h.nextSeq bs0 ts fin with
+    | ok r =>
+      obtain ⟨h1, used1, bs⟩ := r
+      simp only [Res.mapR, wrap3]
+      by_cases hc : bs.length ≠ 0 ∨ fin = true ∨ syn = true
+      · rw [if_pos hc, if_pos hc]
+        simp [Res.mapR, wrapHB, Cont.wrap]
+      · rw [if_neg hc, if_neg hc]
+        simp [Res.mapR, wrapHB]
+    | err k => rfl
+    | panic k => rfl
+
+theorem finishAssemble_wrap {S : List UInt8} {b : Int} (hb : 1 ≤ b) (hn : S.length + 2 < 1073741824)
+    (h : Half) (used : Int) (ret : List Cont) (ts : Int) (keep : KeepRule) (bump : Bool)
+    (hret : ret = [] ∨ ∃ r0, ret = [r0] ∧ SendPre S b h r0) :
+    finishAssemble R h.wrap used (ret.map Cont.wrap) ts keep bump =
+      Res.mapR Out.wrap (finishAssemble I h used ret ts keep bump) := by
+  unfold finishAssemble
+  rcases hret with hr | ⟨r0, hr, pre⟩
+  · subst hr
+    simp [Res.mapR, Out.wrap]
+  · subst hr
+    simp only [List.map_cons, List.map_nil, List.length_cons, List.length_nil, Nat.zero_add, Nat.lt_add_one, if_true]
+    rw [sendToConnection_wrap hb hn h used r0 ts keep pre]
+    obtain ⟨s, hs, post⟩ := sendToConnection_spec S b (by omega) h used r0 ts keep pre
+    rw [hs]
+    simp only [Res.mapR, Sent.wrap]
+    have hl := pre.hat.len
+    have hns0 : 0 ≤ s.nextSeq := by rw [post.nextSeq]; omega
+    have h1 : wq s.nextSeq ≠ invalidSeq := wq_ne_neg1 _
+    have h2 : s.nextSeq ≠ invalidSeq := by simp only [invalidSeq_eq]; omega
+    rw [if_pos h1, if_pos h2]
+    cases bump with
+    | true =>
+      simp only [if_true, real_add, I_add, Out.wrap, Half.wrap]
+      rw [wns_of_nonneg (by omega)]
+    | false =>
+      simp only [Bool.false_eq_true, if_false, Out.wrap, Half.wrap]
+      rw [wns_of_nonneg hns0]
+
+theorem wns_ite_eq {x : Int} (h0 : -1 ≤ x) : (wns x = invalidSeq) ↔ (x = invalidSeq) := by
+  simp only [invalidSeq_eq]; exact wns_eq_neg1 h0
+
+theorem decideQueue_wrap {S : List UInt8} {b : Int} (hb : 1 ≤ b) (hn : S.length + 2 < 1073741824)
+    (h0 : Half) (syn : Bool) (acc : Nat) (sq : Int) (hsq : InW b S.length sq)
+    (hns : h0.nextSeq = -1 ∨ InW b S.length h0.nextSeq) :
+    decideQueue R h0.wrap syn acc (wq sq) =
+      ((decideQueue I h0 syn acc sq).1.wrap, (decideQueue I h0 syn acc sq).2) := by
+  have hsq0 : 0 ≤ sq := by unfold InW at hsq; omega
+  have hns1 : -1 ≤ h0.nextSeq := by rcases hns with h1 | h1; omega; unfold InW at h1; omega
+  unfold decideQueue
+  by_cases hnv : h0.nextSeq = invalidSeq
+  · have hnsw' : h0.wrap.nextSeq = invalidSeq := (wns_ite_eq hns1).mpr hnv
+    rw [if_pos hnv, if_pos hnsw']
+    by_cases hsyn : syn = true
+    · rw [if_pos hsyn, if_pos hsyn]
+      simp only [Half.wrap, wns_of_nonneg hsq0]
+    · rw [if_neg hsyn, if_neg hsyn]
+      by_cases hst : (h0.nextSeq = invalidSeq ∧ syn = true) ∨ acc = 2
+      · have hst' : (h0.wrap.nextSeq = invalidSeq ∧ syn = true) ∨ acc = 2 := by
+          rcases hst with ⟨_, hc⟩ | hc
+          · exact absurd hc hsyn
+          · exact Or.inr hc
+        rw [if_pos hst, if_pos hst']
+        simp only [Half.wrap, wns_of_nonneg hsq0]
+      · have hst' : ¬ ((h0.wrap.nextSeq = invalidSeq ∧ syn = true) ∨ acc = 2) := by
+          intro hc; apply hst
+          rcases hc with ⟨_, hc⟩ | hc
+          · exact absurd hc hsyn
+          · exact Or.inr hc
+        rw [if_neg hst, if_neg hst']
+  · have hnsw' : ¬ h0.wrap.nextSeq = invalidSeq := fun e => hnv ((wns_ite_eq hns1).mp e)
+    rw [if_neg hnv, if_neg hnsw']
+    have hw := hns.resolve_left hnv
+    have h0' : 0 ≤ h0.nextSeq := by unfold InW at hw; omega
+    have e0 : h0.wrap.nextSeq = wq h0.nextSeq := wns_of_nonneg h0'
+    rw [e0, real_diff hb hn hw hsq]
+    by_cases hq : I.diff h0.nextSeq sq > 0
+    · have : sq - h0.nextSeq > 0 := hq
+      rw [if_pos hq, if_pos this]
+    · have : ¬ sq - h0.nextSeq > 0 := hq
+      rw [if_neg hq, if_neg this]
+
+theorem assemble_wrap (S : List UInt8) (i : Int) (hi : 0 ≤ i) (hn : S.length + 2 < 1073741824)
+    (cfg : Cfg) (h : Half) (used : Int) (p : Seg) (acc : Nat) (keep : KeepRule)
+    (hinv : HInv S (i + 1) h) (hp : SegOK S i p) (hacc : acc ≤ 1) :
+    assemble R cfg h.wrap used p.wrap acc keep = Res.mapR Out.wrap (assemble I cfg h used p acc keep) := by
+  have hb : (1 : Int) ≤ i + 1 := by omega
+  unfold assemble
+  have hlast : (if h.wrap.lastSeen < p.wrap.ts then { h.wrap with lastSeen := p.wrap.ts } else h.wrap) =
+      (if h.lastSeen < p.ts then { h with lastSeen := p.ts } else h).wrap := by
+    by_cases hlt : h.lastSeen < p.ts <;> simp [hlt, Half.wrap, Seg.wrap]
+  rw [hlast]
+  generalize hh0 : (if h.lastSeen < p.ts then { h with lastSeen := p.ts } else h) = h0
+  have hc0 : h0.closed = h.closed := by rw [← hh0]; split <;> rfl
+  have hn0 : h0.nextSeq = h.nextSeq := by rw [← hh0]; split <;> rfl
+  have hq0 : h0.queue = h.queue := by rw [← hh0]; split <;> rfl
+  have hs0 : h0.saved = h.saved := by rw [← hh0]; split <;> rfl
+  have hinv0 : HInv S (i + 1) h0 := by
+    rcases hinv with hc | hi'
+    · exact Or.inl (by rw [hc0]; exact hc)
+    · exact Or.inr (inv_congr hn0 hq0 hs0 hi')
+  have hat := segok_at hp
+  have hseqw : (if p.wrap.syn = true then R.add p.wrap.seq 1 else p.wrap.seq) =
+      wq (if p.syn = true then I.add p.seq 1 else p.seq) := by
+    by_cases hsyn : p.syn = true
+    · have e : p.wrap.syn = true := hsyn
+      rw [if_pos e, if_pos hsyn]; exact real_add p.seq 1
+    · have e : ¬ p.wrap.syn = true := hsyn
+      rw [if_neg e, if_neg hsyn]; rfl
+  dsimp only
+  rw [hseqw]
+  have hsynw : p.wrap.syn = p.syn := rfl
+  have hfinw : p.wrap.fin = p.fin := rfl
+  have hrstw : p.wrap.rst = p.rst := rfl
+  have hbw : p.wrap.bytes = p.bytes := rfl
+  have htsw : p.wrap.ts = p.ts := rfl
+  rw [hsynw, hfinw, hrstw, hbw, htsw]
+  have hsynsq : p.syn = true → (if p.syn = true then I.add p.seq 1 else p.seq) = i + 1 := by
+    intro hs
+    rw [if_pos hs]; simp only [I_add]; have := (hp.1 hs).1; omega
+  generalize hsq : (if p.syn = true then I.add p.seq 1 else p.seq) = sq at hat hsynsq ⊢
+  by_cases ha : acc = 0
+  · rw [if_pos ha, if_pos ha]; rfl
+  rw [if_neg ha, if_neg ha]
+  by_cases hcl : h0.closed = true
+  · have hcl' : h0.wrap.closed = true := hcl
+    rw [if_pos hcl, if_pos hcl']; rfl
+  have hcl' : ¬ h0.wrap.closed = true := hcl
+  rw [if_neg hcl, if_neg hcl']
+  have hI : Inv S (i + 1) h0 := hinv0.resolve_left hcl
+  have hatl := hat.len
+  rw [decideQueue_wrap hb hn h0 p.syn acc sq hat.inW.1 hI.weak.inW]
+  -- what the decision is, in offset space
+  have hfacts : WInv S (i + 1) (decideQueue I h0 p.syn acc sq).1 ∧
+      ((decideQueue I h0 p.syn acc sq).2 = true →
+        ((decideQueue I h0 p.syn acc sq).1.nextSeq = -1 ∨ (decideQueue I h0 p.syn acc sq).1.nextSeq < sq)) ∧
+      ((decideQueue I h0 p.syn acc sq).2 = false →
+        ((decideQueue I h0 p.syn acc sq).1.nextSeq ≠ -1 ∧ sq ≤ (decideQueue I h0 p.syn acc sq).1.nextSeq)) := by
+    rcases decideQueue_spec hI p.syn acc sq hacc ⟨hatl.1, by omega⟩ hsynsq with ⟨hd1, hdq, hdn⟩ | ⟨hsyn, hns', hd⟩
+    · rw [hd1]; exact ⟨hI.weak, hdq, hdn⟩
+    · rw [hd]
+      have hsqv := hsynsq hsyn
+      refine ⟨{ ns := Or.inr (by simp only; omega), sorted := hI.queue.1, ok := hI.queue.2.1,
+                lower := fun _ q hq => by
+                  have := (hI.queue.2.1 q hq).1.len
+                  simp only; omega
+                saved := Or.inl (by
+                  rcases hI.saved with hsv | ⟨hne, _⟩
+                  · exact hsv
+                  · exact absurd hns' hne) }, fun hc => Bool.noConfusion hc,
+              fun _ => ⟨by simp only; omega, Int.le_refl _⟩⟩
+  generalize decideQueue I h0 p.syn acc sq = d at hfacts
+  obtain ⟨h1, queue⟩ := d
+  simp only at hfacts ⊢
+  rw [handleBytes_wrap hb hn cfg h1 used queue sq p.bytes p.ts p.syn (p.rst || p.fin) hfacts.1 hat hfacts.2.2]
+  obtain ⟨⟨h2, used2, ret⟩, hhb, hbp⟩ := handleBytes_spec S (i + 1) (by omega) cfg h1 used queue sq p.bytes p.ts
+    p.syn (p.rst || p.fin) hfacts.1 hat hfacts.2.1 hfacts.2.2
+  rw [hhb]
+  simp only [Res.mapR, wrapHB]
+  exact finishAssemble_wrap hb hn h2 used2 ret p.ts keep _
+    (by rcases hbp.ret with hr | ⟨r0, hr, pre, _⟩
+        · exact Or.inl hr
+        · exact Or.inr ⟨r0, hr, pre⟩)
+
+/-! ### flushes and whole histories -/
+
+theorem skipFlush_wrap {S : List UInt8} {b : Int} (hb : 1 ≤ b) (hn : S.length + 2 < 1073741824)
+    (h : Half) (used : Int) (keep : KeepRule) (hI : Inv S b h) :
+    skipFlush R h.wrap used keep = Res.mapR Out.wrap (skipFlush I h used keep) := by
+  unfold skipFlush
+  cases hq : h.queue with
+  | nil =>
+    have : h.wrap.queue = [] := by simp [hq]
+    rw [this]
+    simp only [closeHalf_wrap, Res.mapR, Out.wrap]
+  | cons p rest =>
+    have hw : h.wrap.queue = Page.wrap p :: rest.map Page.wrap := by simp [hq]
+    rw [hw]
+    simp only [addNextFromConn, hq, hw, List.nil_append, Page.wrap_toCont]
+    have pre := skipFlush_pre (by omega) hI hq
+    have e : ({ h.wrap with queue := rest.map Page.wrap } : Half) = ({ h with queue := rest } : Half).wrap := by
+      simp [Half.wrap]
+    rw [e, sendToConnection_wrap hb hn _ used p.toCont 0 keep pre]
+    obtain ⟨s, hs, post⟩ := sendToConnection_spec S b (by omega) { h with queue := rest } used p.toCont 0 keep pre
+    rw [hs]
+    simp only [Res.mapR, Sent.wrap]
+    have hl := pre.hat.len
+    have hns0 : 0 ≤ s.nextSeq := by rw [post.nextSeq]; omega
+    have h1 : wq s.nextSeq ≠ invalidSeq := wq_ne_neg1 _
+    have h2 : s.nextSeq ≠ invalidSeq := by simp only [invalidSeq_eq]; omega
+    rw [if_pos h1, if_pos h2]
+    simp only [Out.wrap, Half.wrap]
+    rw [wns_of_nonneg hns0]
+
+theorem flushLoop_wrap {S : List UInt8} {b : Int} (hb : 1 ≤ b) (hn : S.length + 2 < 1073741824) (t : Int) (keep : KeepRule) :
+    ∀ (fuel : Nat) (h : Half) (used : Int) (sgs : List SG) (fl : Bool), Inv S b h → h.closed = false →
+      flushLoop R t keep fuel h.wrap used sgs fl = Res.mapR Out.wrap (flushLoop I t keep fuel h used sgs fl)
+  | 0, h, used, sgs, fl, _, _ => by simp [flushLoop, Res.mapR, Out.wrap]
+  | fuel + 1, h, used, sgs, fl, hI, hopen => by
+    simp only [flushLoop]
+    cases hq : h.queue with
+    | nil =>
+      have : h.wrap.queue = [] := by simp [hq]
+      rw [this]; simp [Res.mapR, Out.wrap]
+    | cons p rest =>
+      have hw : h.wrap.queue = Page.wrap p :: rest.map Page.wrap := by simp [hq]
+      rw [hw]
+      simp only
+      have hseen : (Page.wrap p).seen = p.seen := rfl
+      rw [hseen]
+      by_cases hlt : p.seen < t
+      · rw [if_pos hlt, if_pos hlt, skipFlush_wrap hb hn h used keep hI]
+        obtain ⟨o, ho, hst, hlen⟩ := skipFlush_spec S b (by omega) h used keep hI hopen
+        rw [ho]
+        simp only [Res.mapR]
+        have hoc : o.wrap.closed = o.closed := rfl
+        rw [hoc]
+        by_cases hc : o.closed = true
+        · rw [if_pos hc, if_pos hc]; simp [Res.mapR, Out.wrap]
+        · rw [if_neg hc, if_neg hc]
+          have hc' : o.closed = false := by simpa using hc
+          have hopen' := (hlen hc').1
+          have hI' : Inv S b o.half := hst.1.resolve_left (by simp [hopen'])
+          exact flushLoop_wrap hb hn t keep fuel o.half o.used (sgs ++ o.sgs) true hI' hopen'
+      · rw [if_neg hlt, if_neg hlt]; simp [Res.mapR, Out.wrap]
+
+theorem flushClose_wrap {S : List UInt8} {b : Int} (hb : 1 ≤ b) (hn : S.length + 2 < 1073741824)
+    (h : Half) (used : Int) (t tc ls : Int) (keep : KeepRule) (hinv : HInv S b h) :
+    flushClose R h.wrap used t tc ls keep = Res.mapR Out.wrap (flushClose I h used t tc ls keep) := by
+  unfold flushClose
+  by_cases hc : h.closed = true
+  · have hc' : h.wrap.closed = true := hc
+    rw [if_pos hc, if_pos hc']; rfl
+  · have hc' : ¬ h.wrap.closed = true := hc
+    rw [if_neg hc, if_neg hc']
+    have hopen : h.closed = false := by simpa using hc
+    have hI := hinv.resolve_left hc
+    have hlen : h.wrap.queue.length = h.queue.length := by simp
+    rw [hlen, flushLoop_wrap hb hn t keep (h.queue.length + 1) h used [] false hI hopen]
+    cases flushLoop I t keep (h.queue.length + 1) h used [] false with
+    | ok o =>
+      simp only [Res.mapR]
+      have hoc : o.wrap.closed = o.closed := rfl
+      rw [hoc]
+      by_cases hoc' : o.closed = true
+      · rw [if_pos hoc', if_pos hoc']
+      · rw [if_neg hoc', if_neg hoc']
+        have he : o.wrap.half.queue.isEmpty = o.half.queue.isEmpty := by simp [Out.wrap]
+        rw [he]
+        by_cases hcond : o.half.queue.isEmpty = true ∧ ls < tc
+        · rw [if_pos hcond, if_pos hcond]
+          have : o.wrap.half = o.half.wrap := rfl
+          rw [this, closeHalf_wrap]
+          simp [Out.wrap]
+        · rw [if_neg hcond, if_neg hcond]
+    | err k => rfl
+    | panic k => rfl
+
+theorem flushAllLoop_wrap {S : List UInt8} {b : Int} (hb : 1 ≤ b) (hn : S.length + 2 < 1073741824) (keep : KeepRule) :
+    ∀ (fuel : Nat) (h : Half) (used : Int) (sgs : List SG), HInv S b h →
+      flushAllLoop R keep fuel h.wrap used sgs = Res.mapR Out.wrap (flushAllLoop I keep fuel h used sgs)
+  | 0, h, used, sgs, _ => by simp [flushAllLoop, Res.mapR, Out.wrap]
+  | fuel + 1, h, used, sgs, hinv => by
+    simp only [flushAllLoop]
+    by_cases hc : h.closed = true
+    · have hc' : h.wrap.closed = true := hc
+      rw [if_pos hc, if_pos hc']; rfl
+    · have hc' : ¬ h.wrap.closed = true := hc
+      rw [if_neg hc, if_neg hc']
+      have hopen : h.closed = false := by simpa using hc
+      have hI := hinv.resolve_left hc
+      rw [skipFlush_wrap hb hn h used keep hI]
+      obtain ⟨o, ho, hst, hlen⟩ := skipFlush_spec S b (by omega) h used keep hI hopen
+      rw [ho]
+      simp only [Res.mapR]
+      have hoc : o.wrap.closed = o.closed := rfl
+      rw [hoc]
+      by_cases hoc' : o.closed = true
+      · rw [if_pos hoc', if_pos hoc']; simp [Res.mapR, Out.wrap]
+      · rw [if_neg hoc', if_neg hoc']
+        exact flushAllLoop_wrap hb hn keep fuel o.half o.used (sgs ++ o.sgs) hst.1
+
+theorem hstep_wrap (S : List UInt8) (i : Int) (hi : 0 ≤ i) (hn : S.length + 2 < 1073741824) (h : Half) (op : HOp)
+    (hinv : HInv S (i + 1) h) (hop : op.OK S i) :
+    hstep R h.wrap op.wrap = Res.mapR Out.wrap (hstep I h op) := by
+  have hb : (1 : Int) ≤ i + 1 := by omega
+  cases op with
+  | seg p acc keep cfg used => exact assemble_wrap S i hi hn cfg h used p acc keep hinv hop.1 hop.2
+  | skipFlush keep used =>
+    simp only [hstep, HOp.wrap]
+    by_cases hc : h.closed = true
+    · have hc' : h.wrap.closed = true := hc
+      rw [if_pos hc, if_pos hc']; rfl
+    · have hc' : ¬ h.wrap.closed = true := hc
+      rw [if_neg hc, if_neg hc']
+      exact skipFlush_wrap hb hn h used keep (hinv.resolve_left hc)
+  | flushClose t tc ls keep used => exact flushClose_wrap hb hn h used t tc ls keep hinv
+  | flushAll keep used =>
+    simp only [hstep, HOp.wrap, flushAllHalf]
+    have hlen : h.wrap.queue.length = h.queue.length := by simp
+    rw [hlen]
+    exact flushAllLoop_wrap hb hn keep _ h used [] hinv
+
+def wrapRun (r : Half × List SG) : Half × List SG := (r.1.wrap, r.2)
+
+/-- Layer A for whole histories: on the wire (sequence numbers modulo 2^32, generated arithmetic) the half
+    connection does exactly what the offset-space twin does. -/
+theorem hrun_wrap (S : List UInt8) (i : Int) (hi : 0 ≤ i) (hn : S.length + 2 < 1073741824) :
+    ∀ (ops : List HOp) (h : Half), HInv S (i + 1) h → (∀ op ∈ ops, op.OK S i) →
+      hrun R h.wrap (ops.map HOp.wrap) = Res.mapR wrapRun (hrun I h ops)
+  | [], h, _, _ => rfl
+  | op :: rest, h, hinv, hok => by
+    simp only [List.map_cons, hrun]
+    rw [hstep_wrap S i hi hn h op hinv (hok op (List.mem_cons_self ..))]
+    obtain ⟨o, ho, hst⟩ := hstep_spec S i hi h op hinv (hok op (List.mem_cons_self ..))
+    rw [ho]
+    simp only [Res.mapR]
+    have : o.wrap.half = o.half.wrap := rfl
+    rw [this, hrun_wrap S i hi hn rest o.half hst.1 (fun op' hm => hok op' (List.mem_cons_of_mem _ hm))]
+    cases hrun I o.half rest with
+    | ok r => obtain ⟨h', sgs⟩ := r; simp [Res.mapR, wrapRun, Out.wrap]
+    | err k => rfl
+    | panic k => rfl
 
 end Gp.Reasm
